@@ -1,6 +1,6 @@
 SPECIFICATION Spec
 CONSTANTS
-  Program <- McTwoClose
+  Program <- McTimeout
   ControlTakesLock = TRUE
   FlushAtomic = TRUE
   LatchChecked = TRUE
